@@ -30,100 +30,247 @@ func isCleanCall(ins ssa.Instruction) (ssa.CallInstruction, bool) {
 	return nil, false
 }
 
-// ruleExecuteThenClean: wherever the data returned by Executor.Execute leaves the function
-// (Result.Data / Response.Data store, return operand), a Clean call on that very value
-// dominates that point.
+// dataEscape is a point at which a tracked data map leaves a function: a store into an object, a
+// return, a send, or a call of code that keeps or passes it on. cleaned says whether a Clean
+// call (with a planner plan's scrub set) on the map dominates the point inside that function.
+type dataEscape struct {
+	ins     ssa.Instruction
+	cleaned bool
+	result  int // for returns: which result carries the map
+}
+
+// dataEscapes follows v (a data map) through fn. A function of the module that receives the
+// map is looked into: handing the map to it is an escape exactly when the map escapes there
+// without having been cleaned there (a builder `newResult(index, data, errs)` stores it into
+// the Result it returns; a helper that only reads it does not matter).
+func (r *Run) dataEscapes(fn *ssa.Function, v ssa.Value, depth int, badRecv *[]ssa.CallInstruction) []dataEscape {
+	seen := map[ssa.Value]bool{}
+	var order []ssa.Value
+	var pts []ssa.Instruction
+	var follow func(v ssa.Value)
+	follow = func(v ssa.Value) {
+		if seen[v] || v.Referrers() == nil {
+			return
+		}
+		seen[v] = true
+		order = append(order, v)
+		for _, ref := range *v.Referrers() {
+			switch x := ref.(type) {
+			case *ssa.Store:
+				if x.Val != v {
+					continue
+				}
+				if al, ok := x.Addr.(*ssa.Alloc); ok {
+					// spilled to a local: the loads of that cell carry the same map
+					for _, i2 := range allInstrs(fn) {
+						if ld, ok := i2.(*ssa.UnOp); ok && ld.Op == token.MUL && ld.X == ssa.Value(al) {
+							follow(ld)
+						}
+					}
+					// a local captured by a literal is out of sight
+					for _, r2 := range *al.Referrers() {
+						if _, ok := r2.(*ssa.MakeClosure); ok {
+							pts = append(pts, x)
+						}
+					}
+					continue
+				}
+				pts = append(pts, x)
+			case *ssa.MapUpdate:
+				if x.Value == v {
+					pts = append(pts, x)
+				}
+			case *ssa.Send:
+				if x.X == v {
+					pts = append(pts, x)
+				}
+			case *ssa.Return:
+				pts = append(pts, x)
+			case *ssa.Phi:
+				follow(x)
+			case *ssa.MakeInterface:
+				follow(x)
+			case *ssa.ChangeType:
+				follow(x)
+			case *ssa.MakeClosure:
+				pts = append(pts, x)
+			case ssa.CallInstruction:
+				if _, ok := isCleanCall(x); ok {
+					continue
+				}
+				c := x.Common()
+				if _, isB := c.Value.(*ssa.Builtin); isB {
+					continue
+				}
+				var callee *ssa.Function
+				if sc := c.StaticCallee(); sc != nil {
+					if d := r.P.declared(sc); inModule(d) && d.Blocks != nil {
+						callee = d
+					}
+				}
+				if _, isCall := x.(*ssa.Call); !isCall || callee == nil || depth >= 3 || c.IsInvoke() {
+					pts = append(pts, x)
+					continue
+				}
+				for i, a := range c.Args {
+					if a != v || i >= len(callee.Params) {
+						continue
+					}
+					for _, e := range r.dataEscapes(callee, callee.Params[i], depth+1, badRecv) {
+						if !e.cleaned {
+							pts = append(pts, x)
+							break
+						}
+					}
+				}
+			}
+		}
+	}
+	follow(v)
+	var cleans []ssa.CallInstruction
+	for _, sv := range order {
+		for _, ref := range *sv.Referrers() {
+			if ci, ok := isCleanCall(ref); ok && len(ci.Common().Args) >= 2 && ci.Common().Args[1] == sv {
+				if !r.cleanReceiverOK(ci) {
+					if badRecv != nil {
+						*badRecv = append(*badRecv, ci)
+					}
+					continue
+				}
+				cleans = append(cleans, ci)
+			}
+		}
+	}
+	var out []dataEscape
+	done := map[ssa.Instruction]bool{}
+	for _, p := range pts {
+		if done[p] {
+			continue
+		}
+		done[p] = true
+		e := dataEscape{ins: p}
+		for _, c := range cleans {
+			if instrDominates(c, p) {
+				e.cleaned = true
+			}
+		}
+		if ret, ok := p.(*ssa.Return); ok {
+			for i, rv := range ret.Results {
+				if seen[rv] || seen[unwrap(rv)] {
+					e.result = i
+				}
+			}
+		}
+		out = append(out, e)
+	}
+	return out
+}
+
+// ruleExecuteThenClean: wherever the data returned by Executor.Execute leaves the code that
+// plays the given roles (Result.Data / Response.Data store, return operand, hand-over to other
+// code), a Clean call on that very map dominates that point. The Execute call is looked for
+// in the role function and in the functions of its package it calls (the body of the
+// per-operation closure may live in a method); data a helper returns unscrubbed is followed
+// into the callers of that helper.
 func ruleExecuteThenClean(fnNames ...string) ruleFn {
 	return func(r *Run) {
 		const rule = "R5.clean"
 		n := 0
-		var fns []*ssa.Function
 		for _, role := range fnNames {
-			fns = append(fns, r.AnchorRole(rule, role)...)
-		}
-		for _, fn := range fns {
-			name := fnName(fn)
-			for _, ins := range allInstrs(fn) {
-				call, ok := ins.(*ssa.Call)
-				if !ok || !call.Call.IsInvoke() || call.Call.Method.Name() != "Execute" || namedOf(call.Call.Value.Type()) != modPath+"/executor.Executor" {
-					continue
-				}
-				var data ssa.Value
-				for _, ref := range *call.Referrers() {
-					if ex, ok := ref.(*ssa.Extract); ok && ex.Index == 0 {
-						data = ex
+			roots := r.AnchorRole(rule, role)
+			if len(roots) == 0 {
+				continue
+			}
+			isRoot := map[*ssa.Function]bool{}
+			for _, f := range roots {
+				isRoot[f] = true
+			}
+			pkg := topFn(roots[0]).Pkg
+			region := r.P.CG.Reachable(roots, func(e *Edge) bool { return e.Kind != "static" || topFn(e.Callee).Pkg != pkg })
+			var fns []*ssa.Function
+			for f := range region {
+				fns = append(fns, f)
+			}
+			sort.Slice(fns, func(i, j int) bool { return fnName(fns[i]) < fnName(fns[j]) })
+			reportedRecv := map[ssa.CallInstruction]bool{}
+			var settle func(fn *ssa.Function, v ssa.Value, origin *ssa.Call, depth int) int
+			settle = func(fn *ssa.Function, v ssa.Value, origin *ssa.Call, depth int) int {
+				name := fnName(fn)
+				var badRecv []ssa.CallInstruction
+				escapes := r.dataEscapes(fn, v, 0, &badRecv)
+				for _, ci := range badRecv {
+					if !reportedRecv[ci] {
+						reportedRecv[ci] = true
+						r.Bad(rule, fnName(ci.Parent()), "scrub set used by Clean", r.P.pos(ci.Pos()), "Clean is called on a ScrubFields that is not the one of the plan the planner made for this operation (a plan assembled on the spot without it, or a value the rule cannot trace to Planner.Plan): the helper fields the planner added are not in it, so nothing is removed and they reach the client")
 					}
 				}
-				if data == nil {
-					r.Bad(rule, name, "Execute result", r.P.pos(call.Pos()), "the data returned by Executor.Execute is not used")
-					continue
-				}
-				var cleans []ssa.CallInstruction
-				for _, ref := range *data.Referrers() {
-					if ci, ok := isCleanCall(ref); ok {
-						if !r.cleanReceiverOK(ci) {
-							r.Bad(rule, name, "scrub set used by Clean", r.P.pos(ci.Pos()), "Clean is called on a ScrubFields that is not the one of the plan the planner made for this operation (a plan assembled on the spot without it, or a value the rule cannot trace to Planner.Plan): the helper fields the planner added are not in it, so nothing is removed and they reach the client")
-							continue
-						}
-						cleans = append(cleans, ci)
+				cnt := 0
+				for _, e := range escapes {
+					site := r.P.pos(e.ins.Pos())
+					if site == "-" {
+						site = r.P.pos(origin.Pos())
 					}
-				}
-				// escapes: stores into Data fields, returns, phis flowing to those
-				var escapes []ssa.Instruction
-				seen := map[ssa.Value]bool{}
-				var follow func(v ssa.Value)
-				follow = func(v ssa.Value) {
-					if seen[v] {
-						return
-					}
-					seen[v] = true
-					for _, ref := range *v.Referrers() {
-						switch x := ref.(type) {
-						case *ssa.Store:
-							if x.Val == v {
-								escapes = append(escapes, x)
-								// value spilled to a result local: follow loads of that cell to the return
-								if al, ok := x.Addr.(*ssa.Alloc); ok {
-									for _, i2 := range allInstrs(fn) {
-										if ld, ok := i2.(*ssa.UnOp); ok && ld.Op == token.MUL && ld.X == ssa.Value(al) {
-											follow(ld)
-										}
+					if ret, isRet := e.ins.(*ssa.Return); isRet && !isRoot[fn] && !e.cleaned && depth < 3 {
+						// handed back to the callers of this helper unscrubbed: their turn
+						up := 0
+						for _, in := range r.P.CG.In[fn] {
+							if in.Kind != "static" || !region[in.Caller] {
+								continue
+							}
+							call, ok := in.Site.(*ssa.Call)
+							if !ok {
+								continue
+							}
+							var rv ssa.Value = call
+							if len(ret.Results) > 1 {
+								rv = nil
+								for _, ref := range *call.Referrers() {
+									if ex, ok := ref.(*ssa.Extract); ok && ex.Index == e.result {
+										rv = ex
 									}
 								}
 							}
-						case *ssa.Return:
-							escapes = append(escapes, x)
-						case *ssa.Phi:
-							follow(x)
-						case *ssa.MakeInterface:
-							follow(x)
-						case *ssa.ChangeType:
-							follow(x)
+							if rv == nil {
+								continue
+							}
+							up += settle(in.Caller, rv, origin, depth+1)
+						}
+						if up > 0 {
+							cnt += up
+							continue
 						}
 					}
-				}
-				follow(data)
-				if len(escapes) == 0 {
-					r.Bad(rule, name, "Execute result", r.P.pos(call.Pos()), "could not find where the executed data leaves the function")
-					continue
-				}
-				for _, e := range escapes {
-					n++
-					dom := false
-					for _, c := range cleans {
-						if instrDominates(c, e) {
-							dom = true
-						}
-					}
-					site := r.P.pos(e.Pos())
-					if site == "-" {
-						site = r.P.pos(call.Pos())
-					}
-					if dom {
+					cnt++
+					if e.cleaned {
 						r.OK(rule, name, "executed data leaves function", site, "ScrubFields.Clean was applied to this very value on every path to this point")
 					} else {
 						r.Bad(rule, name, "executed data leaves function", site, "data produced by Executor.Execute reaches the response without passing ScrubFields.Clean: helper id/__typename fields fetched for stitching would leak to the client")
 					}
+				}
+				return cnt
+			}
+			for _, fn := range fns {
+				name := fnName(fn)
+				for _, ins := range allInstrs(fn) {
+					call, ok := ins.(*ssa.Call)
+					if !ok || !call.Call.IsInvoke() || call.Call.Method.Name() != "Execute" || namedOf(call.Call.Value.Type()) != modPath+"/executor.Executor" {
+						continue
+					}
+					var data ssa.Value
+					for _, ref := range *call.Referrers() {
+						if ex, ok := ref.(*ssa.Extract); ok && ex.Index == 0 {
+							data = ex
+						}
+					}
+					if data == nil {
+						r.Bad(rule, name, "Execute result", r.P.pos(call.Pos()), "the data returned by Executor.Execute is not used")
+						continue
+					}
+					got := settle(fn, data, call, 0)
+					if got == 0 {
+						r.Bad(rule, name, "Execute result", r.P.pos(call.Pos()), "could not find where the executed data leaves the function")
+					}
+					n += got
 				}
 			}
 		}
